@@ -933,6 +933,14 @@ class Engine:
                 if INT_RANGES[g][1] * W > I128_MAX:
                     st.events.append(('may_panic', 'from_num overflow')); st.pc.append(z3.And(r <= I128_MAX, r >= I128_MIN))
                 return iv(r)
+            if f == 'from_num' and g in ('f64', 'f32') and args and isinstance(args[0], Opaque):
+                # a float LITERAL (`const 100f64`): exact when the literal has at most 48 fractional bits, which is all the code base uses
+                fm = re.search(r'const (-?[0-9][0-9_]*(?:\.[0-9]+)?(?:[eE]-?[0-9]+)?)_?f(64|32)', str(args[0].name))
+                if fm:
+                    from fractions import Fraction
+                    q = Fraction(float(fm.group(1).replace('_', ''))) * W
+                    if q.denominator == 1 and I128_MIN <= q.numerator <= I128_MAX:
+                        return iv(z3.IntVal(q.numerator))
             if f == 'checked_to_num' and g in INT_RANGES:
                 r = fdiv(a, W); lo, hi = INT_RANGES[g]
                 return opt(z3.Or(r < lo, r > hi), IntV(r, g), f'Option<{g}>')
